@@ -90,6 +90,11 @@ pub struct RespOut {
     pub pulled_at_head: usize,
     pub peak_alloc: usize,
     pub written: Vec<u8>,
+    /// the transport reached its Pause (a read of the connection that would wait for bytes the peer has not
+    /// sent) during a send() that nevertheless returned Ok
+    pub send_ok_waited: bool,
+    /// index of the first caller read that returned Ok although, during it, the transport reached its Pause
+    pub ok_read_waited: Option<usize>,
 }
 
 impl RespOut {
@@ -207,6 +212,8 @@ pub fn run_resp(case: &RespCase) -> RespOut {
         pulled_at_head: 0,
         peak_alloc: 0,
         written: vec![],
+        send_ok_waited: false,
+        ok_read_waited: None,
     };
     let sent = catch_unwind(AssertUnwindSafe(|| {
         attohttpc::RequestBuilder::new(method_of(&case.method), "http://verif.test/x")
@@ -217,6 +224,8 @@ pub fn run_resp(case: &RespCase) -> RespOut {
             .send()
     }));
     out.pulled_at_head = log.lock().unwrap().pulled;
+    let pauses = |log: &Arc<Mutex<Log>>| log.lock().unwrap().events.iter().filter(|e| matches!(e, crate::script::LogEv::ReadPause)).count();
+    let pauses_in_send = pauses(&log);
     match sent {
         Err(_) => out.head = HeadOut::Panic,
         Ok(Err(e)) => {
@@ -227,14 +236,19 @@ pub fn run_resp(case: &RespCase) -> RespOut {
         }
         Ok(Ok(mut resp)) => {
             out.head = HeadOut::Ok(resp.status().as_u16());
+            out.send_ok_waited = pauses_in_send > 0;
             out.coding = resp.verif_coding();
             for (n, v) in resp.headers().iter() {
                 out.headers.push((n.as_str().to_string(), v.as_bytes().to_vec()));
             }
             match &case.reads {
                 Reads::Sizes(ns) => {
-                    for &n in ns {
+                    for (ri, &n) in ns.iter().enumerate() {
+                        let before = pauses(&log);
                         let r = catch_unwind(AssertUnwindSafe(|| resp.read(&mut buf[..n])));
+                        if matches!(r, Ok(Ok(_))) && out.ok_read_waited.is_none() && pauses(&log) > before {
+                            out.ok_read_waited = Some(ri);
+                        }
                         out.events.push(match r {
                             Err(_) => Ev::Panic,
                             Ok(Ok(k)) => Ev::Ok(buf[..k].to_vec()),
